@@ -45,7 +45,8 @@ CLAIMED["C09"] = (
 )
 CLAIMED["C01"] = (
     "generated-input totality check: grammar documents cut at every prefix, point-edited, token soup, "
-    "bracket ramps, arbitrary unicode; bounded-exhaustive escape-atom sequences and exception-class x "
+    "bracket ramps, arbitrary unicode; request templates with known and unknown directives sprinkled over "
+    "them, integers beyond the decimal conversion limit among the variables; bounded-exhaustive escape-atom sequences and exception-class x "
     "fault-site product; response-format validator as oracle; thorough tier adds coverage-guided fuzzing "
     "(atheris/libFuzzer, 12 processes, empty and seeded corpora) with the same oracle inside the target",
     "Every parse entry point must return a Node or raise GraphQLSyntaxError on every generated text; "
@@ -252,11 +253,14 @@ CLAIMED["C04"] = (
 CLAIMED["C05"] = (
     "trace-invariant monitor (state machine over the formatted payload sequence) on (a) every explored run of "
     "the incremental request domain under the deterministic scheduler and (b) a bounded enumeration of small work "
-    "graphs x completion orders driving the real WorkQueue + IncrementalPublisher directly",
+    "graphs x completion orders driving the real WorkQueue + IncrementalPublisher directly and (c) a bounded "
+    "enumeration of stream specs x completion orders driving the real StreamItemQueue alone",
     "On every payload: ids are announced once before any data and never reused, incremental entries target a "
     "pending id and an existing object or list of the data assembled so far, every announced id is completed "
     "exactly once, a necessarily nested fragment is not announced while its announced enclosing fragment stays "
-    "pending, hasNext is true except on the last payload and nothing follows it, and the stream terminates.",
+    "pending, hasNext is true except on the last payload and nothing follows it, and the stream terminates; the "
+    "stream item queue delivers its items in list order without gaps or repeats, every result up to the first "
+    "item without one, then the normal end or the right failure.",
     "Static nesting is taken from the generated document (every-route enclosure, exact relative key paths); F11 "
     "was repaired, the open known finding F20 is excluded by predicate (target missing, present at the end, an "
     "enclosing fragment was pruned); the direct drive enumerates graphs with <= 2 (3) delivery groups, <= 2 tasks, "
@@ -268,7 +272,9 @@ CLAIMED["C06"] = (
     "fault/stop-point exploration under the deterministic scheduler: generated incremental and plain requests "
     "x stop kind (aclose after k, abort with three reason kinds before/after the initial result, none) x early "
     "execution x schedules, with clock-free history invariants each under its own signature; the same stops on "
-    "subscription response streams and on streamed lists longer than the stream item queue's capacity",
+    "subscription response streams, on streamed lists longer than the stream item queue's capacity and on the "
+    "real StreamItemQueue driven alone (bounded enumeration of stream specs x completion orders); sources whose "
+    "finalisation and resolvers whose unwinding are asynchronous (they await a gate)",
     "After the stop the awaiting caller is released at the next quiescence, nothing hangs, and once the consumer "
     "has followed the documented protocol and the harness gates are released no task or harness resolver is left, "
     "every started generator source ran its finally exactly once, async_work_finished fired exactly once and "
@@ -276,7 +282,7 @@ CLAIMED["C06"] = (
     "Stop points are chosen by the schedule (aclose right after payload k, abort at a quiescent point); harness "
     "resolvers honour cancellation; source records are read before the private loop is closed, so a source that is "
     "only finalised by loop.shutdown_asyncgens() counts as not closed. No open finding: the defects found "
-    "(F10, F12, F13, F21-F24, F26-F37, F39) are repaired in the repository and kept as replays.",
+    "(F10, F12, F13, F21-F24, F26-F37, F39, F42, F46, F47) are repaired in the repository and kept as replays.",
     "DESIGN.md 3/C06",
 )
 PENDING_REASON = (
